@@ -185,6 +185,7 @@ def check(prop, tier, seed, replay=None):
         "rule": prop.rule, "samples": samples, "input_distribution": stats["dist"],
         "known_findings_replayed": sorted(known_seen),
         "suites": [{"name": s.name, "cases": len(s.cases)} for s in suites],
+        "driver_stalls_rerun": len(core.STALLS),
     }
     core.write_evidence(pid, tier, seed, coverage, time.time() - t0, len(violations), list(prop.assumptions))
     for l in lines_out: print(l)
